@@ -103,7 +103,7 @@ Theorem C05_discriminates_construct :
   forall o x y, cons_body_eq New o x y = Ok true ->
   pd_eq New o (o_ip o) (c_pd x) (c_pd y) = Ok true /\
   c_geom x = c_geom y /\ c_meas x = c_meas y /\
-  opt_pd_eq New o (c_bounds x) (c_bounds y) = Ok true /\
+  bounds_eq New o x y = Ok true /\
   opt_pd_eq New o (c_iring x) (c_iring y) = Ok true /\
   is_none (c_bounds x) = is_none (c_bounds y) /\ is_none (c_iring x) = is_none (c_iring y).
 Proof. exact cons_equal_components. Qed.
@@ -233,3 +233,60 @@ Theorem C05_examples :
   top_eq New C05.Refuted.o0 (TField base_cm) (TField (ren_field pre pre pre base_cm)) = Some (Ok true).
 Proof. exact examples_nonvacuous. Qed.
 Print Assumptions C05_examples.
+
+(* ---- second deepening round ---- *)
+
+(* The option forms of ignore_properties: the names that Properties.equals drops are exactly the
+   given names (None: none; a string: that one name; a sequence: its elements) together with
+   _FillValue and missing_value exactly when ignore_fill_value is set. *)
+Theorem C05_ignored_names :
+  forall ifv ip, exists l, ign_list New ifv ip = Ok l /\
+    forall n, In n l <-> (In n (ip_list ip) \/ (ifv = true /\ In n fill_names)).
+Proof. exact ignored_names. Qed.
+Print Assumptions C05_ignored_names.
+
+Theorem C05_ignore_forms_agree :
+  forall ifv s, s <> EmptyString ->
+  ign_list New ifv (IPStr s) = ign_list New ifv (IPSeq [s]) /\
+  ip_list (IPStr s) = [s] /\ ip_list IPNone = [] /\ ip_list (IPStr EmptyString) = [].
+Proof. exact ignore_forms_agree. Qed.
+Print Assumptions C05_ignore_forms_agree.
+
+(* The redundant-property rule for bounds (PropertiesDataBounds.equals: an inheritable property is
+   left out of the comparison of the bounds when on BOTH sides it is either not set on the bounds
+   or set to the value the parent has).  Reflexivity and symmetry survive it: C05_copy_construct,
+   C05_sym_exact_construct, C05_copy_field above are theorems about the model WITH the rule.
+   It stays discriminating: a property set on the bounds of one side only, to a value that
+   contradicts the parent (or that the parent has not), makes the constructs unequal - both ways. *)
+Theorem C05_bounds_contradiction_discriminates :
+  forall o x y u w p b,
+  c_bounds x = Some u -> c_bounds y = Some w -> p_ext u = false ->
+  In p inheritable -> assoc p (p_props u) = Some b ->
+  redundant_on (p_props (c_pd x)) (p_props u) p = false ->
+  assoc p (p_props w) = None ->
+  cons_body_eq New o x y <> Ok true /\ cons_body_eq New o y x <> Ok true.
+Proof. exact bounds_contradiction_discriminates. Qed.
+Print Assumptions C05_bounds_contradiction_discriminates.
+
+(* ... and a redundant repeat of the parent's value is not a difference - both ways. *)
+Theorem C05_redundant_repeat_equal :
+  forall o x u p v q,
+  opts_ok o -> wf_cons x -> c_bounds x = Some u -> In p inheritable -> ~ In p (keys (p_props u)) ->
+  assoc p (p_props (c_pd x)) = Some q -> pval_eq_default v q = true ->
+  cons_body_eq New o x (with_bprop x u p v) = Ok true /\ cons_body_eq New o (with_bprop x u p v) x = Ok true.
+Proof. exact redundant_repeat_equal. Qed.
+Print Assumptions C05_redundant_repeat_equal.
+
+Theorem C05_examples_bounds :
+  wf_cons latb /\ c_bounds latb = Some bnd /\ In "positive"%string inheritable /\
+  ~ In "positive"%string (keys (p_props bnd)) /\
+  pval_eq_default (PStr "up") (PStr "up") = true /\
+  redundant_on (p_props (c_pd latb)) (p_props bnd ++ [("positive"%string, PStr "down")]) "positive" = false /\
+  cons_body_eq New C05.Refuted.o0 latb (with_bprop latb bnd "positive" (PStr "up")) = Ok true /\
+  cons_body_eq New C05.Refuted.o0 latb (with_bprop latb bnd "positive" (PStr "down")) = Ok false /\
+  cons_body_eq New C05.Refuted.o0 (with_bprop latb bnd "positive" (PStr "down")) latb = Ok false /\
+  cons_body_eq New C05.Refuted.o0 (with_bprop latb bnd "positive" (PStr "down"))
+                      (with_bprop latb bnd "positive" (PStr "down")) = Ok true /\
+  cons_body_eq New C05.Refuted.o0 (with_bprop latb bnd "axis" (PStr "Y")) latb = Ok false.
+Proof. exact examples_bounds_nonvacuous. Qed.
+Print Assumptions C05_examples_bounds.
